@@ -134,6 +134,36 @@ def run_case(frames: list[tuple[int, bytes]], tail: tuple[int, bytes] | None, ta
     return {"problems": problems, "n_delivered": len(got), "stream_len": len(first)}
 
 
+def run_pair(streams_: list[list[tuple[int, bytes]]], cutsets: list[tuple[int, ...]], kind: str) -> list[tuple[str, str]]:
+    """Several helpers alive in one process (one per device an application talks to), fed alternately chunk by chunk: each connection gets
+    exactly its own frames, at the right call - nothing of the reassembly state is shared between helpers."""
+    hs = []
+    for frames, cuts in zip(streams_, cutsets):
+        stream = b"".join(refcodec.enc_plain(t, p) for t, p in frames)
+        h, c, t, d = wire.make_plain()
+        d.start()
+        hs.append({"frames": frames, "chunks": wire.cuts_to_chunks(stream, cuts), "c": c, "d": d, "t": t, "pos": 0})
+    problems: list[tuple[str, str]] = []
+    k = 0
+    while any(x["pos"] < len(x["chunks"]) for x in hs):
+        x = hs[k % len(hs)]
+        k += 1
+        if x["pos"] >= len(x["chunks"]):
+            continue
+        obj, ba = wire.wrap_chunk(x["chunks"][x["pos"]], kind)
+        x["pos"] += 1
+        x["d"].feed(obj)
+        wire.scrub(ba)
+    for i, x in enumerate(hs):
+        got = [(g[0], bytes(g[1])) for g in x["c"].packets]
+        if got != [(t, p) for t, p in x["frames"]]:
+            problems.append(("interleaved-helpers", f"helper {i} of {len(hs)} fed alternately: delivered {len(got)} frames "
+                             f"{[(t, len(p)) for t, p in got][:6]}, its stream held {[(t, len(p)) for t, p in x['frames']][:6]}"))
+        if x["c"].fatal or x["d"].escaped or x["t"].closing:
+            problems.append(("interleaved-helpers-error", f"helper {i}: fatal={x['c'].fatal[:1]} escaped={x['d'].escaped[:1]}"))
+    return problems
+
+
 def layout_of(frames: list[tuple[int, bytes]]) -> list[tuple[int, dict[str, tuple[int, int]]]]:
     out = []
     pos = 0
@@ -278,6 +308,29 @@ def shard(ctx: Ctx) -> None:
                     if rl > 1:
                         rest_cuts = (rng.randrange(1, rl),)
                 check(ctx, frames, tail, tp, cuts, kind, clabel, rest_cuts)
+    # 1b. two or three helpers alive at once, fed alternately
+    multi = [fr for label, fr in streams(ctx) if label == "multi"]
+    for j in range(0, len(multi) - 2, 2):
+        idx += 1
+        if not ctx.mine(idx):
+            continue
+        group = multi[j:j + (3 if j % 4 == 0 else 2)]
+        for rep in range(6 if ctx.thorough else 2):
+            cutsets = []
+            for fr in group:
+                n = sum(len(refcodec.enc_plain(*f)) for f in fr)
+                cutsets.append(tuple(sorted(rng.sample(range(1, n), min(n - 1, rng.randint(1, 9))))) if n > 1 else ())
+            kind = kinds[(j + rep) % len(kinds)]
+            res = ctx.res
+            res.evaluations += 1
+            res.count("chunking/interleaved-helpers")
+            probs = run_pair(group, cutsets, kind)
+            if not probs:
+                res.count("frames_delivered_and_checked", sum(len(fr) for fr in group))
+                res.sig("pair", tuple(tuple(frame_class(*f) for f in fr) for fr in group), kind, rep)
+            for key, what in probs:
+                res.violation(f"C01/{key}", what, {"pair": True, "frame_types": [[t for t, _ in fr] for fr in group], "frame_lens": [[len(p) for _, p in fr] for fr in group],
+                                                   "cutsets": [list(c) for c in cutsets], "kind": kind})
     # 2. tiny streams: every segmentation, every buffer kind
     limit = 14 if ctx.thorough else 10
     for frames in tiny_streams(limit):
@@ -300,6 +353,11 @@ def shard(ctx: Ctx) -> None:
 
 def replay(spec: dict[str, Any]) -> int:
     case = spec["case"]
+    if case.get("pair"):
+        group = [[(t, payload(n, 100 * gi + i + 1)) for i, (t, n) in enumerate(zip(ts, ns))] for gi, (ts, ns) in enumerate(zip(case["frame_types"], case["frame_lens"]))]
+        probs = run_pair(group, [tuple(c) for c in case["cutsets"]], case["kind"])
+        print("replay C01 (interleaved helpers):", probs)
+        return 1 if probs else 0
     frames = [(t, payload(n, i + 1)) for i, (t, n) in enumerate(zip(case["frame_types"], case["frame_lens"]))]
     tail = None
     if case.get("tail"):
